@@ -20,7 +20,7 @@ class RtRegistry:
             "classdef": lambda *a, **k: None,
             "contract": self._contract,
             "define": self._define,
-            "declare_fun": lambda *a, **k: None,
+            "declare_fun": self._declare_fun,
             "lemma": lambda *a, **k: None,
             "axiom": lambda *a, **k: None,
             "prop": lambda pid, **k: self.props.__setitem__(pid, k),
@@ -39,6 +39,11 @@ class RtRegistry:
 
     def _define(self, name, params, body):
         self.macros[name] = (params, body)
+
+    def _declare_fun(self, name, params, ret, heap=(), definition=None, **kw):
+        if definition:
+            # a recursive spec function with a defining equation is an ordinary (recursive) python function at run time
+            self.macros[name] = ([p[0] for p in params], definition)
 
 
 class _Tr(ast.NodeTransformer):
@@ -97,6 +102,10 @@ class _Tr(ast.NodeTransformer):
 
     def visit_Compare(self, node):
         node = self.generic_visit(node)
+        if len(node.ops) == 1 and isinstance(node.ops[0], (ast.Eq, ast.NotEq, ast.LtE, ast.GtE)):
+            # floats: the contracts are statements over the reals (A1); at run time they are compared up to rounding
+            fn = {ast.Eq: "_feq", ast.NotEq: "_fne", ast.LtE: "_fle", ast.GtE: "_fge"}[type(node.ops[0])]
+            return ast.Call(func=ast.Name(id=fn, ctx=ast.Load()), args=[node.left, node.comparators[0]], keywords=[])
         if len(node.ops) == 1 and isinstance(node.ops[0], (ast.Is, ast.IsNot)):
             c = node.comparators[0]
             if isinstance(c, ast.Constant) and c.value is None:
@@ -168,6 +177,19 @@ def _snap(o, memo, depth=0):
     return o
 
 
+def _isfloat(v):
+    return isinstance(v, float) or type(v).__name__ in ("float64", "float32")
+
+
+def _feq(a, b):
+    if (_isfloat(a) or _isfloat(b)) and not isinstance(a, bool) and not isinstance(b, bool):
+        try:
+            return a == b or math.isclose(a, b, rel_tol=1e-9, abs_tol=1e-9)
+        except TypeError:
+            return a == b
+    return a == b
+
+
 def _round_dec(x, n):
     import numpy as np
     return float(np.round(x, decimals=int(n)))
@@ -207,6 +229,9 @@ class Evaluator:
             "unchanged": self._unchanged, "real": float, "seqsum": lambda l, lo=0, hi=None: math.fsum(list(l)[lo:hi]),
             "fdiv": lambda a, b: a / b, "math": math, "inf": math.inf,
             "_enumval": lambda v: getattr(v, "value", v), "round_dec": _round_dec, "owner": self._owner,
+            "_feq": _feq, "_fne": lambda a, b: not _feq(a, b), "_fle": lambda a, b: a <= b or _feq(a, b),
+            "_fge": lambda a, b: a >= b or _feq(a, b), "cos": math.cos, "sin": math.sin, "sqrt": math.sqrt, "pi": math.pi,
+            "exp": math.exp,
         }
         env.update(self.extra)
         for name in self.reg.macros:
